@@ -151,12 +151,15 @@ def knotted_cases(count, seed, *, max_comp=7, tag="k"):
     return cases
 
 
-def clique_cases(tag="q"):
+LONG_CLIQUES = ([3, 3, 3, 3, 3], [3, 3, 3, 3, 3, 3, 3], [4, 3, 3, 3, 5, 3], [3, 4, 3, 4, 3, 4, 3, 4])
+
+
+def clique_cases(tag="q", lens_list=None):
     """Ladders of 6 and 7 mutually crossing stems (letter brackets beyond the four symbol pairs) whose lengths
     are NOT in descending 5'-3' order: first come first served and the optimum differ in the letter levels only."""
     cases = []
-    for k, lens in enumerate(([6, 5, 4, 3, 1, 2], [6, 5, 4, 3, 2, 1], [1, 2, 3, 4, 5, 6], [3, 3, 3, 3, 1, 2],
-                              [2, 2, 2, 2, 2, 1, 3], [7, 6, 5, 4, 3, 1, 2])):
+    for k, lens in enumerate(lens_list or ([6, 5, 4, 3, 1, 2], [6, 5, 4, 3, 2, 1], [1, 2, 3, 4, 5, 6], [3, 3, 3, 3, 1, 2],
+                                           [2, 2, 2, 2, 2, 1, 3], [7, 6, 5, 4, 3, 1, 2])):
         starts5, pos = [], 1
         for ln in lens:
             starts5.append(pos)
